@@ -568,3 +568,71 @@ Proof.
     clear - Nj. revert j Nj. induction rm as [|a r IH]; intros j Nj; [destruct j; discriminate|].
     destruct j; simpl in *; [inversion Nj; reflexivity | apply IH, Nj].
 Qed.
+
+(* ------------------------------------------------------------------ a scaled column's total: rounding only *)
+Lemma keep_written_false_scaled rs : forall nv i r,
+  keep_written rs nv = false -> nth_error rs i = Some r -> is_one r = false -> nth i nv 0 = 0.
+Proof.
+  induction rs as [|q qr IH]; intros nv i r K N O; [destruct i; discriminate|].
+  destruct nv as [|v vr]; [destruct i; reflexivity|].
+  simpl in K. apply orb_false_iff in K as [K1 K2].
+  destruct i; simpl in *.
+  - inversion N. subst q. rewrite O in K1. simpl in K1. apply negb_false_iff in K1. lia.
+  - apply (IH vr i r K2 N O).
+Qed.
+
+Lemma lin_scale_n_scaled_column rs p i r :
+  nth_error rs i = Some r -> is_one r = false ->
+  lin (fun _ => true) i (p_sample (scale_n keep_written rs p)) = lin (fun _ => true) i (map (scale_sample rs) (p_sample p)).
+Proof.
+  intros N O. rewrite scale_n_samples. destruct (forallb is_one rs) eqn:A.
+  - rewrite map_scale_ones; [reflexivity | exact A].
+  - apply lin_filter. intros s' _ K. unfold val_at. apply (keep_written_false_scaled rs _ i r K N O).
+Qed.
+
+Lemma lin_cons (g : sample -> bool) i s t : lin g i (s :: t) = (if g s then val_at i s else 0) + lin g i t.
+Proof. reflexivity. Qed.
+
+Lemma scaled_total_close rs i r ss :
+  nth_error rs i = Some r -> is_one r = false ->
+  (Qabs (inject_Z (lin (fun _ => true) i (map (scale_sample rs) ss)) - r * inject_Z (lin (fun _ => true) i ss))
+   <= inject_Z (Z.of_nat (List.length ss)) / 2)%Q.
+Proof.
+  intros N O. induction ss as [|s t IH].
+  - cbn [map lin List.length].
+    assert ((inject_Z 0 - r * inject_Z 0) == 0)%Q as E by (change (inject_Z 0) with 0%Q; ring).
+    rewrite E. vm_compute. discriminate.
+  - cbn [map List.length]. rewrite !lin_cons. cbv iota. rewrite Nat2Z.inj_succ. unfold Z.succ. rewrite !inject_Z_plus.
+    rewrite (val_at_scale rs s i), N, O.
+    pose proof (round_away_close (inject_Z (val_at i s) * r)) as C.
+    set (a := inject_Z (round_away (inject_Z (val_at i s) * r))) in *.
+    set (b := inject_Z (lin (fun _ : sample => true) i (map (scale_sample rs) t))) in *.
+    set (L := inject_Z (lin (fun _ : sample => true) i t)) in *.
+    set (v := inject_Z (val_at i s)) in *.
+    setoid_replace (a + b - r * (v + L))%Q with ((a - v * r) + (b - r * L))%Q by ring.
+    eapply Qle_trans; [apply Qabs_triangle|].
+    change (inject_Z 1) with 1%Q.
+    set (X := Qabs (a - v * r)) in *. set (Y := Qabs (b - r * L)) in *.
+    set (n := inject_Z (Z.of_nat (Datatypes.length t))) in *. clearbody X Y n. clear - C IH. unfold Qdiv in *. change (/ 2)%Q with (1 # 2)%Q in *. lra.
+Qed.
+
+(* ScaleN on a scaled column: the new total is ratio * old total within half a unit per sample;
+   with ratio = base total / source total (Normalize) this is |new total - base total| <= n/2 *)
+Lemma scale_n_total_close rs p i r :
+  nth_error rs i = Some r -> is_one r = false ->
+  (Qabs (inject_Z (lin (fun _ => true) i (p_sample (scale_n keep_written rs p))) - r * inject_Z (lin (fun _ => true) i (p_sample p)))
+   <= inject_Z (Z.of_nat (List.length (p_sample p))) / 2)%Q.
+Proof. intros N O. rewrite (lin_scale_n_scaled_column rs p i r N O). apply scaled_total_close; assumption. Qed.
+
+Lemma normalize_total_partial_lemma rs p i B :
+  let S := lin (fun _ => true) i (p_sample p) in
+  S <> 0 -> nth_error rs i = Some (inject_Z B / inject_Z S)%Q -> is_one (inject_Z B / inject_Z S) = false ->
+  (Qabs (inject_Z (lin (fun _ => true) i (p_sample (scale_n keep_written rs p))) - inject_Z B)
+   <= inject_Z (Z.of_nat (List.length (p_sample p))) / 2)%Q.
+Proof.
+  intros S NZ N O. pose proof (scale_n_total_close rs p i _ N O) as H. fold S in H.
+  assert (~ inject_Z S == 0)%Q as NQ.
+  { intros E. apply NZ. change 0%Q with (inject_Z 0) in E. exact (proj1 (inject_Z_injective S 0) E). }
+  setoid_replace (inject_Z B)%Q with (inject_Z B / inject_Z S * inject_Z S)%Q by (field; exact NQ).
+  exact H.
+Qed.
